@@ -20,6 +20,8 @@ pub enum BandSpec {
     /// Directory exists, no BANDHEAD (what an interrupted creation or a half-finished
     /// removal leaves); `tail` says whether a BANDTAIL is lying in it.
     NoHead { tail: bool },
+    /// Directory with a zero-length BANDHEAD (a backup killed while writing it).
+    TornHead,
     Band {
         /// Indices into the universe, strictly increasing in reference order.
         entries: Vec<u8>,
@@ -71,6 +73,10 @@ fn write_case(root: &Path, case: &Case) {
                 if *tail {
                     format::write_band_tail(root, id, 1);
                 }
+            }
+            BandSpec::TornHead => {
+                format::write_band_dir(root, id);
+                std::fs::write(root.join(format::band_dirname(id)).join("BANDHEAD"), b"").unwrap();
             }
             BandSpec::Band { entries, hunks, missing_tail_hunks, closed } => {
                 format::write_band_head(root, id);
@@ -195,6 +201,7 @@ fn run(case: &Case, cx: &mut Cx) -> CaseResult {
     cx.label_if(case.stride > 1, "gaps-in-ids");
     cx.label_if(case.universe.len() >= 100, "wide:100+paths");
     cx.label_if(case.bands.iter().any(|b| matches!(b, BandSpec::NoHead { .. })), "headless-dir");
+    cx.label_if(case.bands.iter().any(|b| matches!(b, BandSpec::TornHead)), "torn-head");
     cx.label_if(
         case.bands.iter().any(|b| matches!(b, BandSpec::Band { missing_tail_hunks, .. } if *missing_tail_hunks > 0)),
         "missing-trailing-hunks",
@@ -209,7 +216,7 @@ fn run(case: &Case, cx: &mut Cx) -> CaseResult {
 // ---- exhaustive small space
 
 fn band_states(universe_len: usize) -> Vec<BandSpec> {
-    let mut out = vec![BandSpec::Absent, BandSpec::NoHead { tail: false }, BandSpec::NoHead { tail: true }];
+    let mut out = vec![BandSpec::Absent, BandSpec::NoHead { tail: false }, BandSpec::NoHead { tail: true }, BandSpec::TornHead];
     for closed in [false, true] {
         out.push(BandSpec::Band { entries: vec![], hunks: vec![], missing_tail_hunks: 0, closed });
     }
@@ -374,6 +381,7 @@ fn wide_strategy() -> BoxedStrategy<Case> {
             let bands = bands
                 .into_iter()
                 .map(|(kind, mask, hunks, cut, closed)| match kind {
+                    0 if closed => BandSpec::TornHead,
                     0 => BandSpec::NoHead { tail: false },
                     _ => {
                         // an interrupted band holds a prefix of what it would have held
@@ -423,6 +431,7 @@ fn small_strategy() -> BoxedStrategy<Case> {
                 .into_iter()
                 .map(|(kind, mask, hunks, missing, closed)| match kind {
                     0 => BandSpec::Absent,
+                    1 if mask[0] && mask[1] => BandSpec::TornHead,
                     1 => BandSpec::NoHead { tail: closed },
                     _ => BandSpec::Band {
                         entries: (0..universe.len() as u8).filter(|i| mask[*i as usize % mask.len()]).collect(),
@@ -446,7 +455,7 @@ pub fn prop() -> Prop<Case> {
     Prop {
         id: "C08",
         level: "exploration",
-        rule: "archives are written directly by the harness in the documented format. Enumeration: every arrangement of 3 band slots, each in {absent, directory without head (with or without a stray tail), head(+tail) without hunks, head + any non-empty sorted subset of the universe split into 1 or 2 hunks, with or without tail} over the universe {/a, /a.b, /a/b} (quick; thorough adds /é), listed for every N that has a head and subtree in {/, /a, /a.b}. Generated: up to 5 slots with id gaps of 1-59 and ids crossing b9999/b10000, universes of 4-10 generated paths, up to 5 hunks per band incl. empty [] hunks and missing trailing hunks, subtree from the universe or absent, exclude sets. One fixed scale probe: an interrupted band of 10 003 one-entry hunks over a complete one. Oracle: Archive::iter_entries == reference stitcher (own entries, then nearest earlier band with a head after the last path taken, until a closed band) filtered by containment and the exclude rule, entry-for-entry with provenance encoded in mtime; strictly increasing under the reference order; never longer than the archive's entry count (termination). Non-trivial = N incomplete, an older band continues it, and the resume point falls strictly inside a hunk of the older band or skips over an absent/head-less slot; enumerated listings distinct by construction, generated by case hash",
+        rule: "archives are written directly by the harness in the documented format. Enumeration: every arrangement of 3 band slots, each in {absent, directory without head (with or without a stray tail), directory with a zero-length head, head(+tail) without hunks, head + any non-empty sorted subset of the universe split into 1 or 2 hunks, with or without tail} over the universe {/a, /a.b, /a/b} (quick; thorough adds /é), listed for every N that has a head and subtree in {/, /a, /a.b}. Generated: up to 5 slots with id gaps of 1-59 and ids crossing b9999/b10000, universes of 4-10 generated paths, up to 5 hunks per band incl. empty [] hunks and missing trailing hunks, subtree from the universe or absent, exclude sets. One fixed scale probe: an interrupted band of 10 003 one-entry hunks over a complete one. Oracle: Archive::iter_entries == reference stitcher (own entries, then nearest earlier band with a head after the last path taken, until a closed band) filtered by containment and the exclude rule, entry-for-entry with provenance encoded in mtime; strictly increasing under the reference order; never longer than the archive's entry count (termination). Non-trivial = N incomplete, an older band continues it, and the resume point falls strictly inside a hunk of the older band or skips over an absent/head-less slot; enumerated listings distinct by construction, generated by case hash",
         assumptions: &[
             "head-less directories are not 'existing versions' (the stitcher skips them)",
             "reference stitcher and containment/exclude oracles are the harness's own",
